@@ -35,15 +35,23 @@ def run(chk):
                          "multiples of pi/4; non-trivial = irregular polygon or off-origin centre or theta outside [0,2pi)")
     cases, meta = [], []
     for _ in range(nshape):
-        kind = rng.choice(["regular", "irregular", "irregular", "rect"])
+        kind = rng.choice(["regular", "irregular", "irregular", "rect", "nearly-axis-aligned"])
         if kind == "regular":
             P = gen.ngon(int(rng.integers(3, 13)), float(2.0 ** rng.integers(-2, 3)), rng.choice([0.0, rng.uniform(0, 1)]))
         elif kind == "rect":
             a, b = float(rng.integers(1, 6)), float(rng.integers(1, 6))
             P = np.array([[0, 0], [a, 0], [a, b], [0, b]], float)
+        elif kind == "nearly-axis-aligned":
+            # a quadrilateral whose edges miss the vertical / horizontal by a few parts per million (not special cases: plain slanted edges)
+            a, b = float(rng.integers(1, 6)), float(rng.integers(1, 6))
+            e1, e2 = [float(2.0 ** -int(rng.integers(18, 27))) * float(rng.choice([-1, 1])) for _ in range(2)]
+            P = np.array([[0, 0], [a, a * e2], [a + b * e1, b], [b * e1 * 0.5, b - a * e2]], float)
         else:
             _, P = gen.simple_polygon(rng, kind="convex")
-        P = gen.dy(P, 12) + gen.dy(rng.uniform(-5, 5, 2), 4) * rng.choice([0.0, 1.0])
+        P = gen.dy(P, 12 if kind != "nearly-axis-aligned" else 40) + gen.dy(rng.uniform(-5, 5, 2), 4) * rng.choice([0.0, 1.0])
+        # any size: a third of the shapes (offset included) are rescaled exactly by a power of two between 2^-30 (1e-9) and 2^8
+        if rng.random() < 0.34:
+            P = P * 2.0 ** int(rng.integers(-30, 9))
         V = np.c_[P, np.zeros(len(P))]
         if np.cross(V[2] - V[1], V[0] - V[1])[2] == 0:
             continue
